@@ -39,12 +39,6 @@ def rowGet (row : List Bool) (i : Nat) : Res Bool := nth row i
 def nthI (cs : List Nat) (i : Int) : Res Nat :=
   if i < 0 then .error (.panic "index out of range: negative") else nth cs i.toNat
 
-/-- Go `strings.Index(alphabet, string(c))`: first position or -1 -/
-def indexI (A : List Nat) (c : Nat) : Int :=
-  match indexOf? c A with
-  | some i => (i : Int)
-  | none => -1
-
 /-- is the error one of the three ReaderExceptions / fuel / panic: used only for `WrapNotFoundException(e)`,
     which turns the (always NotFound) error of RecordPattern into NotFound; panics are not errors and pass through -/
 def wrapNotFound {α} : Res α → Res α
@@ -151,9 +145,6 @@ def c39Loop (T : Tables) (row : List Bool) : Nat → Nat → List Nat → Res (L
           if ch = 42 then .ok (acc.reverse, nextStart, sumL cs, next)
           else c39Loop T row fuel next (ch :: acc)
 
-/-- Go `alphabet[i]` with an `int` index -/
-def alphaAtI (A : List Nat) (i : Int) : Res Nat := nthI A i
-
 /-- Code 39 `DecodeRow` after the loop: check character (optional), empty tests, extended mode
     (`code39DecodeExtended` as repaired, D15: `OneDPost.c39Ext`) -/
 def c39Finish (A : List Nat) (ck ext : Bool) (s : List Nat) : Res (List Nat) :=
@@ -162,8 +153,8 @@ def c39Finish (A : List Nat) (ck ext : Bool) (s : List Nat) : Res (List Nat) :=
     let afterCheck : Res (List Nat) :=
       if ck then
         let max := s.length - 1
-        let total : Int := (s.take max).foldl (fun t c => t + indexI A c) 0
-        match nth s max, alphaAtI A (Int.tmod total 43) with
+        let total : Int := OneDPost.sumIdx A (s.take max)      -- Σ strings.Index(alphabet, string(result[i]))
+        match nth s max, OneDPost.alphaAt A (Int.tmod total 43) with
         | .error e, _ => .error e
         | _, .error e => .error e
         | .ok last, .ok want => if last ≠ want then .error .checksum else .ok (s.take max)
@@ -246,11 +237,11 @@ def c93Loop (T : Tables) (row : List Bool) : Nat → Nat → List Nat → Res (L
 def c93Weighted (A : List Nat) (weightMax : Nat) : List Nat → Nat → Int → Int
   | [], _, total => total
   | c :: rest, w, total =>
-    c93Weighted A weightMax rest (if w + 1 > weightMax then 1 else w + 1) (total + (w : Int) * indexI A c)
+    c93Weighted A weightMax rest (if w + 1 > weightMax then 1 else w + 1) (total + (w : Int) * OneDPost.indexOf A c)
 
 def c93CheckOne (A : List Nat) (s : List Nat) (checkPos weightMax : Nat) : Res Unit :=
   let total := c93Weighted A weightMax (s.take checkPos).reverse 1 0
-  match nth s checkPos, alphaAtI A (Int.tmod total 47) with
+  match nth s checkPos, OneDPost.alphaAt A (Int.tmod total 47) with
   | .error e, _ => .error e
   | _, .error e => .error e
   | .ok got, .ok want => if got ≠ want then .error .checksum else .ok ()
